@@ -16,7 +16,8 @@ Proved (for ALL states of the list stage `i ≥ 4`, every list `ms`, every hint 
   zero move and `nil` with `i = len + 5` when the list is exhausted.  The whitelist fuel suffices (never `none` for lack of fuel).
 * `scan_runList`: `scan` is one step of the model's `runList` (the `default:` stage of `iterate`): the bridge from the state
   machine to the fold the search theorems are about, for the list stage.
-Stated, not proved: `next_iterate_statement` (driving `Next` from `i = 0` through the hint stages equals `iterate`). -/
+`next_iterate_statement` (driving `Next` from `i = 0` through the hint stages equals `iterate`) is stated here and proved in
+`Props/C05_gen4.lean`. -/
 namespace C05
 open Search
 
@@ -201,10 +202,24 @@ def driveNext {σ ρ : Type} (g : Game P Gen.Move) (cfg : SOpts) (o : Oracle Gen
         | .ok (.next a', s'') => driveNext g cfg o p mg body n st' a' s''
         | other => other
 
-/-- NOT PROVED (what is missing: the four hint stages `i = 0..3` - each a one-round equation like `genLoop_list` - and the induction that
-threads the engine state through the loop body; the list stage is `next_list_is_source` + `scan_runList`): driving the regenerated
-`Next` from `Reset` (`i = 0`, `ms == nil`) with enough calls is the model's `iterate`, for every loop body. -/
+/-- **driving the regenerated `Next` from `Reset` is the model's `iterate`** (`i = 0`, `ms == nil`, enough calls), for every loop body.
+PROVED in `Props/C05_gen4.lean` (`next_iterate`).  Two hypotheses were added to the statement as gen6 left it, because without them it is
+false (`C05.next_iterate_unrestricted_false` exhibits a counterexample for the first):
+* `hord`: the ordering oracle does not lengthen the list (`sort.Sort` permutes; the model's `Oracle.order` is an arbitrary function, and
+  on a longer list `len(AllMoves) + 5` calls - and the whitelist fuel of `Next` - do not suffice);
+* `hbody`: the loop body keeps the 15 frames of `ai.stack` (the regenerated `Next` reads `ai.stack[ply-1].m` after a STATIC bound check
+  against the array type, the model's `respLookup` checks the length of `stackM`; the search's bodies only assign `stack[ply].m`). -/
 def next_iterate_statement : Prop :=
+  ∀ (σ ρ : Type) (g : Game P Gen.Move) (cfg : SOpts) (o : Oracle Gen.Move) (p : P) (mg : MG Gen.Move)
+    (body : Gen.Move → P → σ → Eng Gen.Move → Except Tak.Err (Ctl σ ρ × Eng Gen.Move)) (a : σ) (s : Eng Gen.Move),
+    g.moveEq = Gen.moveEqual → g.zeroMove = default → mg.ply < 15 → s.stackM.size = 15 →
+    (∀ m e, g.apply p m = .error e → ∃ t, e = .illegal t) →
+    (∀ k l, (o.order k l).length ≤ l.length) →
+    (∀ m c a s x, s.stackM.size = 15 → body m c a s = .ok x → x.2.stackM.size = 15) →
+    driveNext g cfg o p mg body ((g.allMoves p).length + 5) (0, #[], true, default) a s = iterate g cfg o p mg body a s
+
+/-- the statement as gen6 left it (no hypothesis on the ordering oracle or on the body): refuted in `Props/C05_gen4.lean` -/
+def next_iterate_unrestricted : Prop :=
   ∀ (σ ρ : Type) (g : Game P Gen.Move) (cfg : SOpts) (o : Oracle Gen.Move) (p : P) (mg : MG Gen.Move)
     (body : Gen.Move → P → σ → Eng Gen.Move → Except Tak.Err (Ctl σ ρ × Eng Gen.Move)) (a : σ) (s : Eng Gen.Move),
     g.moveEq = Gen.moveEqual → g.zeroMove = default → mg.ply < 15 → s.stackM.size = 15 →
